@@ -27,7 +27,9 @@ def stale_spec(rng, vapp_models):
             fields.append({'name': 'pals', 'type': 'ManyToManyField', 'attrs': {}, 'related': 'yapp.%s' % names[0]})
         if vapp_models and rng.random() < 0.6:
             # several many-to-many fields on one model: each owns an automatically created table
-            fields.append({'name': 'mates', 'type': rng.choice(['ManyToManyField', 'TagsField']), 'attrs': {},
+            # ... some of them under an explicit table name (one that extends another table's name)
+            fields.append({'name': 'mates', 'type': rng.choice(['ManyToManyField', 'TagsField']),
+                           'attrs': rng.choice([{}, {'db_table': 'yapp_%s_links' % n.lower()}, {'db_table': 'vapp_hub_m'}]),
                            'related': 'vapp.%s' % rng.choice(vapp_models)})
             if rng.random() < 0.6:
                 fields.append({'name': 'fans', 'type': 'ManyToManyField', 'attrs': {},
@@ -50,7 +52,8 @@ def setup_project(rng, seed, with_stale=True):
                   {'name': 'id', 'type': 'AutoField', 'attrs': {'primary_key': True}, 'related': None},
                   {'name': 'n', 'type': 'IntegerField', 'attrs': {'null': True}, 'related': None},
                   {'name': 'link', 'type': 'ForeignKey', 'attrs': {'null': True}, 'related': 'vapp.%s' % rng.choice(vnames)},
-                  {'name': 'many', 'type': 'ManyToManyField', 'attrs': {}, 'related': 'vapp.%s' % rng.choice(vnames)},
+                  {'name': 'many', 'type': 'ManyToManyField', 'attrs': rng.choice([{}, {'db_table': 'wapp_wal_lines'}]),
+                   'related': 'vapp.%s' % rng.choice(vnames)},
                   {'name': 'more', 'type': rng.choice(['ManyToManyField', 'TagsField']), 'attrs': {},
                    'related': 'vapp.%s' % rng.choice(vnames)}]}
     spec['apps'].append({'id': 'wapp', 'models': [wmodel]})
@@ -93,6 +96,17 @@ def add_stale(rng, seed, spec):
     v.signature = s
     v.save()
     return stale
+
+
+def subclass_m2m_table_untracked(app_spec, msg):
+    """finding F59: the failing table is the DEFAULT many-to-many table name of a field whose class is a
+    ManyToManyField subclass and that names its table explicitly"""
+    for m in app_spec['models']:
+        for f in m['fields']:
+            if f['type'] in sigs.M2M_TYPES and f['type'] != 'ManyToManyField' and f['attrs'].get('db_table') and \
+                    ('no such table: %s_%s' % (m['table'], f['name'])) in msg:
+                return True
+    return False
 
 
 def owned_tables(app_spec):
@@ -162,6 +176,8 @@ def run(ctx):
                 msg = str(r[1])
                 if own_m2m and 'Unable to find a model signature for "yapp.' in msg:
                     ctx.fail('F42', 'evolve --purge failed: %s' % msg[:160], rep)
+                elif subclass_m2m_table_untracked(stale, msg):
+                    ctx.fail('F59', 'evolve --purge failed: %s' % msg[:160], rep)
                 elif 'cannot resolve automatically' in msg and 'has been deleted' in r[2] and \
                         'In model' not in r[2]:
                     ctx.fail('F43', 'evolve --purge is rejected by its own simulation check', rep)
@@ -206,7 +222,9 @@ def run(ctx):
             evorig.set_evolutions(target_app, [{'label': 'drop1', 'mutations': [sigs.real_mutation(m) for m in muts]}])
             r = evorig.run_evolver()
             if r[0] != 'ok':
-                ctx.fail(None, '%s through an evolution failed: %s' % (mode, str(r[1])[:160]), rep)
+                ctx.fail('F59' if subclass_m2m_table_untracked({'models': [victim] if mode == 'delete_model' else
+                                                                victim['models']}, str(r[1])) else None,
+                         '%s through an evolution failed: %s' % (mode, str(r[1])[:160]), rep)
                 continue
             after = state()
             compare(before, after, dropped, rep, ctx, mode)
